@@ -7,7 +7,7 @@
 (* says the results and the state must be in exp, the logged values in     *)
 (* obs, and the invariant Conforms compares them.  Nothing is inferred     *)
 (* from the plan; nothing but arguments is taken from the trace.           *)
-EXTENDS ApiSponge, ApiCpp, ApiKdf, ApiHex, ApiByteArray, ApiPrng, Conc, Json, IOUtils, TLC
+EXTENDS ApiSponge, ApiCpp, ApiKdf, ApiHex, ApiByteArray, ApiPrng, ApiMasked, Conc, Json, IOUtils, TLC
 
 T == ndJsonDeserialize(IOEnv.TRACE)
 
@@ -415,7 +415,57 @@ BaNext == TrBaNew \/ TrBaAssign \/ TrBaIndexSet \/ TrBaIndexGet \/ TrBaDataSet \
           \/ TrBaPush \/ TrBaPop \/ TrBaClear \/ TrBaCmp \/ TrBaIter \/ TrBaDel
 
 -----------------------------------------------------------------------------
-Next == TrReset \/ PermNext \/ SpongeNext \/ AeadNext \/ AeadIncNext \/ KdfNext \/ IsapNext \/ PrngNext \/ MiscNext \/ ExtraNext \/ BaNext
+(* C10: masked words, states, keys - by value.  objs holds the represented *)
+(* VALUE of every masked object; the event logs the value read back with   *)
+(* the library's store function, the raw shares and the random tape.       *)
+MwSet(id, v) == Put(id, [kind |-> "mword", v |-> v])
+MwVal(id) == objs[id].v
+\* on 64-bit masked back ends the raw shares must themselves represent the value
+RawOK(ev, shares, v) == IF ev.w64 = 1 THEN WordToBytes(Unmask64(shares)) = v ELSE TRUE
+\* refresh: with generic randomness every share word changes
+RefreshOK(ev, before, after, n) ==
+  IF Generic(ev.tape_used, n, ev.w64) THEN \A i \in DOMAIN before : AllSharesChanged(before[i], after[i]) ELSE TRUE
+
+TrMwOp == IsEv("mw.op") /\ LET ev == T[l]  nm == ev.name  n == ev.n IN
+  CASE nm = "zero" -> Step(MwSet(ev.obj, Zeros(8)), <<Zeros(8), TRUE>>, <<ev.val, RawOK(ev, ev.raw, ev.val)>>)
+    [] nm = "load" -> Step(MwSet(ev.obj, ev.data), <<ev.data, TRUE>>, <<ev.val, RawOK(ev, ev.raw, ev.val)>>)
+    [] nm = "load_partial" -> LET v == MwLoadPartial(ev.data) IN Step(MwSet(ev.obj, v), <<v, TRUE>>, <<ev.val, RawOK(ev, ev.raw, ev.val)>>)
+    [] nm = "load_32" -> LET v == MwLoad32(ev.data, ev.data2) IN Step(MwSet(ev.obj, v), <<v, TRUE>>, <<ev.val, RawOK(ev, ev.raw, ev.val)>>)
+    [] nm = "store" -> Step(objs, <<MwVal(ev.obj), MwVal(ev.obj), 1>>, <<ev.out, ev.val, ev.guard>>)
+    [] nm = "store_partial" -> Step(objs, <<MwStorePartial(MwVal(ev.obj), ev.size), MwVal(ev.obj), 1>>, <<ev.out, ev.val, ev.guard>>)
+    [] nm = "randomize" -> LET v == MwVal(ev.src) IN
+         Step(MwSet(ev.obj, v), <<v, TRUE, TRUE>>, <<ev.val, RawOK(ev, ev.raw, ev.val), RefreshOK(ev, <<ev.raw_before>>, <<ev.raw>>, n)>>)
+    [] nm = "xor" -> LET v == MwXor(MwVal(ev.obj), MwVal(ev.src)) IN
+         Step(MwSet(ev.obj, v), <<v, IF ev.src = ev.obj THEN v ELSE MwVal(ev.src), TRUE>>, <<ev.val, ev.srcval, RawOK(ev, ev.raw, ev.val)>>)
+    [] nm = "replace" -> LET v == MwReplace(MwVal(ev.obj), MwVal(ev.src), ev.size) IN
+         Step(MwSet(ev.obj, v), <<v, MwVal(ev.src), TRUE>>, <<ev.val, ev.srcval, RawOK(ev, ev.raw, ev.val)>>)
+    [] nm = "from" -> LET v == MwVal(ev.src) IN
+         Step(MwSet(ev.obj, v), <<v, v, TRUE>>, <<ev.val, ev.srcval, RawOK(ev, ev.raw, ev.val)>>)
+    [] nm = "pad" -> LET v == MwPad(MwVal(ev.obj), ev.size) IN Step(MwSet(ev.obj, v), <<v, TRUE>>, <<ev.val, RawOK(ev, ev.raw, ev.val)>>)
+    [] nm = "separator" -> LET v == MwSeparator(MwVal(ev.obj)) IN Step(MwSet(ev.obj, v), <<v, TRUE>>, <<ev.val, RawOK(ev, ev.raw, ev.val)>>)
+
+MsSet(id, v) == Put(id, [kind |-> "mstate", v |-> v])
+StateRawOK(ev, v) == IF ev.w64 = 1 THEN \A i \in 1..5 : WordToBytes(Unmask64(ev.raw[i])) = SubSeq(v, 8 * i - 7, 8 * i) ELSE TRUE
+TrMsOp == IsEv("ms.op") /\ LET ev == T[l]  nm == ev.name IN
+  CASE nm = "load" -> Step(MsSet(ev.obj, ev.data), <<ev.data, TRUE>>, <<ev.val, StateRawOK(ev, ev.val)>>)
+    [] nm = "randomize" -> LET v == MwVal(ev.obj) IN
+         Step(objs, <<v, TRUE, TRUE>>, <<ev.val, StateRawOK(ev, ev.val), RefreshOK(ev, ev.raw_before, ev.raw, ev.n)>>)
+    [] nm = "permute" -> LET v == Permute(MwVal(ev.obj), ev.r) IN
+         Step(MsSet(ev.obj, v), <<v, TRUE>>, <<ev.val, StateRawOK(ev, ev.val)>>)
+    [] nm = "to_x1" -> Step(objs, <<MwVal(ev.obj), MwVal(ev.obj)>>, <<ev.out, ev.val>>)
+    [] nm = "from" -> LET v == MwVal(ev.src) IN Step(MsSet(ev.obj, v), <<v, v, TRUE>>, <<ev.val, ev.srcval, StateRawOK(ev, ev.val)>>)
+    [] nm = "free" -> Step(Del(ev.obj), <<>>, <<>>)
+
+MkSet(id, k) == Put(id, [kind |-> "mkey", v |-> k])
+TrMkOp == IsEv("mk.op") /\ LET ev == T[l]  nm == ev.name IN
+  CASE nm = "init" -> Step(MkSet(ev.obj, ev.key), <<ev.key, 1>>, <<ev.out, ev.guard>>)
+    [] nm = "extract" -> Step(objs, <<MwVal(ev.obj), 1>>, <<ev.out, ev.guard>>)
+    [] nm = "randomize" -> Step(objs, <<MwVal(ev.obj), 1, TRUE>>, <<ev.out, ev.guard, RefreshOK(ev, ev.raw_before, ev.raw, ev.shares)>>)
+    [] nm = "free" -> Step(Del(ev.obj), <<>>, <<>>)
+MaskedNext == TrMwOp \/ TrMsOp \/ TrMkOp
+
+-----------------------------------------------------------------------------
+Next == TrReset \/ PermNext \/ SpongeNext \/ AeadNext \/ AeadIncNext \/ KdfNext \/ IsapNext \/ PrngNext \/ MiscNext \/ ExtraNext \/ BaNext \/ MaskedNext
 
 Spec == Init /\ [][Next]_vars
 
